@@ -203,6 +203,9 @@ def noExc : Out → Prop
   | .exc _ => False
   | _ => True
 
+instance (o : Out) : Decidable (noExc o) := by
+  cases o <;> simp only [noExc] <;> infer_instance
+
 /-- **C08 for histories** (stored-pointer clause): from any well-parented tree, after any sequence
     of list-protocol and dict-protocol calls applied to any of its elements — with plain values or with
     internally well-parented Element arguments — every node's stored parent chain is exactly its
